@@ -41,38 +41,41 @@ import (
 // ---------------------------------------------------------------------------------------
 // Calibrated floors (large regime).
 //
-// How they were obtained (DESIGN.md section 4, C07): the thorough batch list (c07Batches, all
-// stages) was run at VERIF_SEED=1..10 with
+// How they were obtained (DESIGN.md section 4, C07): the thorough batch list (c07Batches, two
+// rounds per batch, all stages) was run at VERIF_SEED=1..10, and then also 11..30, with
 //
-//	VERIF_SEED=$s C07_CALIBRATE=1 ./check C07 --tier thorough --part large
+//	VERIF_REPO=/tmp/fix-C07 VERIF_SEED=$s C07_CALIBRATE=1 ./check C07 --tier thorough --part large
 //
-// twice: on kektordb 16048df..d78161f (one round per batch, 1051 stage measurements) and,
-// because /repo moved while this check was being built (restart now replays in journal
-// order), again on 7f6b3c1 (two rounds per batch, 2120 measurements). The "C07CAL {json}"
-// lines of the child logs are kept in evidence/calibration/*.jsonl. Per batch, rmin is the
-// minimum over both runs, all seeds and all stages (built / deleted / vacuum / readd /
-// refine / toplayer-deleted+vacuum / restart / compress / compress+restart, plus
-// imported(boost) on the import batches) of the stage mean over 100 queries;
+// on the REPAIRED tree: kektordb 0343457 + the five patches of /verif patches/D-C07-{5,1,2,3,4}.diff
+// (all findings "fixed", so no guard is active and the stage toplayer-deleted is measured
+// too). The "C07CAL {json}" lines of the child logs (2360 + 4720 stage measurements) are in
+// evidence/calibration/C07-large-seeds1-10-repaired.jsonl and ...seeds11-30-repaired.jsonl
+// (20 more seeds than DESIGN.md asks for: the self-retrieval rate after a vacuum that had to
+// re-elect the entry point has a wide spread, 0.45..1.0 on clustered data, and a minimum over
+// 20 samples of it was not a safe basis for "never alarms"); the two calibrations made on
+// the unrepaired tree are in evidence/calibration/pre-repair/. Per batch, rmin is the
+// minimum over all 30 seeds, rounds and stages (built / deleted / vacuum / readd / refine /
+// toplayer-deleted / toplayer-deleted+vacuum / restart / compress / compress+restart,
+// plus imported(boost) on the import batches) of the stage mean over 100 queries;
 // floor = min(rmin - 0.10, 0.85), not below 0.
 // Order of the three numbers: recall@10 with the default efSearch (=k), recall@10 with
 // efSearch=100, self-retrieval rate (k=1, default efSearch). The same floor applies to every
-// stage of the batch. The floors of the single-add batches with small M are depressed by
-// finding D-C07-5 (see REPORT-C07.md): recalibrate after a repair.
+// stage of the batch.
 type c07Calib struct{ rmin, floor c07Floor }
 
 var c07Floors = map[string]c07Calib{
-	"uniform16-single-M16":        {rmin: c07Floor{0.832, 0.992, 0.870}, floor: c07Floor{0.732, 0.850, 0.770}}, // 270 stage measurements
-	"clustered32-cos-batch-M16":   {rmin: c07Floor{0.939, 0.999, 0.640}, floor: c07Floor{0.839, 0.850, 0.540}}, // 270 stage measurements
-	"clustered256-cos-import-M16": {rmin: c07Floor{0.989, 1.000, 0.800}, floor: c07Floor{0.850, 0.850, 0.700}}, // 291 stage measurements
-	"uniform2-single-M8":          {rmin: c07Floor{0.980, 1.000, 0.990}, floor: c07Floor{0.850, 0.850, 0.850}}, // 270 stage measurements
-	"uniform8-import-M8":          {rmin: c07Floor{0.884, 0.973, 0.870}, floor: c07Floor{0.784, 0.850, 0.770}}, // 300 stage measurements
-	"dups16-single-M8":            {rmin: c07Floor{0.806, 0.848, 0.790}, floor: c07Floor{0.706, 0.748, 0.690}}, // 270 stage measurements
-	"zeros24-cos-batch-M16":       {rmin: c07Floor{0.663, 0.938, 0.610}, floor: c07Floor{0.563, 0.838, 0.510}}, // 270 stage measurements
-	"uniform128-single-M16":       {rmin: c07Floor{0.530, 0.954, 0.640}, floor: c07Floor{0.430, 0.850, 0.540}}, // 270 stage measurements
-	"clustered32-f16-single-M16":  {rmin: c07Floor{0.968, 0.995, 0.770}, floor: c07Floor{0.850, 0.850, 0.670}}, // 210 stage measurements
-	"uniform32-int8-batch-M16":    {rmin: c07Floor{0.755, 0.994, 0.910}, floor: c07Floor{0.655, 0.850, 0.810}}, // 210 stage measurements
-	"uniform8-single-M4":          {rmin: c07Floor{0.293, 0.429, 0.090}, floor: c07Floor{0.193, 0.329, 0.000}}, // 270 stage measurements
-	"grid4-batch-M16":             {rmin: c07Floor{0.990, 1.000, 0.950}, floor: c07Floor{0.850, 0.850, 0.850}}, // 270 stage measurements
+	"uniform16-single-M16":        {rmin: c07Floor{0.940, 1.000, 0.960}, floor: c07Floor{0.840, 0.850, 0.850}}, // 600 stage measurements
+	"clustered32-cos-batch-M16":   {rmin: c07Floor{0.939, 1.000, 0.480}, floor: c07Floor{0.839, 0.850, 0.380}}, // 600 stage measurements
+	"clustered256-cos-import-M16": {rmin: c07Floor{0.956, 0.999, 0.760}, floor: c07Floor{0.850, 0.850, 0.660}}, // 660 stage measurements
+	"uniform2-single-M8":          {rmin: c07Floor{0.999, 1.000, 0.980}, floor: c07Floor{0.850, 0.850, 0.850}}, // 600 stage measurements
+	"uniform8-import-M8":          {rmin: c07Floor{0.924, 0.997, 0.830}, floor: c07Floor{0.824, 0.850, 0.730}}, // 660 stage measurements
+	"dups16-single-M8":            {rmin: c07Floor{0.930, 0.998, 0.810}, floor: c07Floor{0.830, 0.850, 0.710}}, // 600 stage measurements
+	"zeros24-cos-batch-M16":       {rmin: c07Floor{0.565, 0.999, 0.590}, floor: c07Floor{0.465, 0.850, 0.490}}, // 600 stage measurements
+	"uniform128-single-M16":       {rmin: c07Floor{0.693, 0.995, 0.760}, floor: c07Floor{0.593, 0.850, 0.660}}, // 600 stage measurements
+	"clustered32-f16-single-M16":  {rmin: c07Floor{0.970, 1.000, 0.650}, floor: c07Floor{0.850, 0.850, 0.550}}, // 480 stage measurements
+	"uniform32-int8-batch-M16":    {rmin: c07Floor{0.827, 0.999, 0.910}, floor: c07Floor{0.727, 0.850, 0.810}}, // 480 stage measurements
+	"uniform8-single-M4":          {rmin: c07Floor{0.893, 0.999, 0.740}, floor: c07Floor{0.793, 0.850, 0.640}}, // 600 stage measurements
+	"grid4-batch-M16":             {rmin: c07Floor{0.998, 1.000, 0.940}, floor: c07Floor{0.850, 0.850, 0.840}}, // 600 stage measurements
 }
 
 const (
@@ -336,6 +339,16 @@ func (x *c07Index) addMany(kind string, vs [][]float32) {
 	if kind == "import" {
 		x.uncommitted = true
 	}
+}
+
+// parallelPath predicts whether a batch insertion takes the parallel path: while D-C07-4 is
+// open the engine compares the id counter with the threshold, afterwards the number of live
+// nodes (used for the evidence counters and the D-C07-4 guard only, never for a verdict).
+func (x *c07Index) parallelPath(s c07Snap, threshold int) bool {
+	if x.ctx.IsKnown(c07DStar) {
+		return int(s.counter) >= threshold
+	}
+	return s.liveN >= threshold
 }
 
 // addManyGuarded: parallel tells whether the index will take the parallel batch path
@@ -905,8 +918,9 @@ func c07ExactCase(ctx *vkit.Ctx, cs *vkit.Case) {
 			room = cap - s.total
 		}
 		manyOK := true
-		if s.total == 0 && int(s.counter) >= min(efC, 40) && ctx.IsKnown(c07DSelf) {
-			// guard D-C07-3: the first insertion into an emptied graph is a single add
+		if s.liveN == 0 && int(s.counter) >= min(efC, 40) && ctx.IsKnown(c07DSelf) {
+			// guard D-C07-3: the first insertion into a graph without live nodes (emptied by vacuum,
+			// or - once D-C07-2 is repaired - holding only soft-deleted nodes) is a single add
 			manyOK = false
 		}
 		switch {
@@ -924,7 +938,7 @@ func c07ExactCase(ctx *vkit.Ctx, cs *vkit.Case) {
 				for j := range vs {
 					vs[j] = data.vec()
 				}
-				x.addManyGuarded("batch", vs, int(s.counter) >= efC)
+				x.addManyGuarded("batch", vs, x.parallelPath(s, efC))
 			}
 		case p < 0.52 && room > 0:
 			if !manyOK {
@@ -938,7 +952,7 @@ func c07ExactCase(ctx *vkit.Ctx, cs *vkit.Case) {
 				for j := range vs {
 					vs[j] = data.vec()
 				}
-				x.addManyGuarded("import", vs, int(s.counter) >= max(2*M, 40))
+				x.addManyGuarded("import", vs, x.parallelPath(s, max(2*M, 40)))
 				if r.Chance(0.5) {
 					x.importCommit()
 				}
